@@ -157,6 +157,10 @@ structure Cfg where
   /-- code variant: `Core.dispatching` marks a bundle contraindicated when the routing algorithm does
       not allow its dispatching (`false` = the original code just returns) -/
   holdFix : Bool
+  /-- code variant: the gate of epidemic routing lets a bundle through whose destination is a directly
+      connected peer, whatever its sent list says (`false` = the original gate, which keeps a bundle that
+      came from its own destination away from that destination) -/
+  gateDirect : Bool := false
 deriving DecidableEq, Repr
 
 /-- `sprayMetaData` (in memory only). -/
@@ -400,8 +404,15 @@ def epiLocal (c : Cfg) (it : Item) : Bool :=
   | some e => hasEndpoint c e
   | none => false
 
-/-- `DispatchingAllowed`. Epidemic: allowed iff the bundle is for this node or some connected sender
-is not in the sent list; when it says no it marks the item pending itself. All others: always. -/
+/-- `len(c.senderForDestination(dst)) > 0` for the stored `routing/epidemic/destination`. -/
+def epiDirect (n : Node) (it : Item) : Bool :=
+  match it.rt.epiDst with
+  | some e => n.peers.any (fun p => p.eid.sameNode e)
+  | none => false
+
+/-- `DispatchingAllowed`. Epidemic: allowed iff the bundle is for this node, (`gateDirect`) its destination
+is a connected peer, or some connected sender is not in the sent list; when it says no it marks the item
+pending itself. All others: always. -/
 def dispatchingAllowed (env : Env) (d : Desc) (n : Node) : Bool × Node :=
   match n.cfg.algo with
   | .epidemic =>
@@ -409,6 +420,7 @@ def dispatchingAllowed (env : Env) (d : Desc) (n : Node) : Bool × Node :=
     | none => (true, n)
     | some it =>
       if epiLocal n.cfg it then (true, n)
+      else if n.cfg.gateDirect && epiDirect n it then (true, n)
       else if (filterCLAs it.rt.sentE (senders env n d.key)).1.isEmpty
       then (false, modItem d.key (fun it => { it with pending := true }) n)
       else (true, n)
